@@ -415,6 +415,7 @@ func RunC20(ctx *core.Ctx) *core.Violation {
 	}
 	ctx.Add("probe_sched_steps", int64(sr.Steps))
 	ctx.Add("probe_sched_task_switches", int64(sr.Switches))
+	ctx.Add("probe_sched_holds_after_release", int64(sr.Holds))
 	ctx.Count("probe_scheduled_runs")
 
 	if sr.Deadlock {
